@@ -12,9 +12,9 @@ STANDING_ASSUMPTIONS = [
 
 PROPERTIES = {
     'C16': {
-        'units': ['index', 'keys', 'map'],
-        'sample_functions': ['Lmdb::dump_naddr_deleted', 'Lmdb::dump_deleted', 'Lmdb::key_naddr_index', 'Lmdb::mark_naddr_deleted', 'Lmdb::index'],
-        'not_decided': ['Store::rebuild itself (file renames, chown, four copy loops over heed iterators) is not under contract; what is proved is what its loops rely on: every deletion marker is dumped once and re-encodes to exactly its key and time (so re-marking reproduces the tables), deleted ids likewise, index(event, offset) adds exactly keys_of(event) (so re-indexing reproduces an event\'s entries), and EventStore::store_event appends only the event bytes plus alignment padding',
+        'units': ['rebuild', 'index', 'keys', 'map'],
+        'sample_functions': ['Store::rebuild#copy_events', 'Lmdb::dump_naddr_deleted', 'Lmdb::dump_deleted', 'Lmdb::key_naddr_index', 'Lmdb::mark_naddr_deleted', 'Lmdb::index'],
+        'not_decided': ['Store::rebuild as a whole (file renames, chown, reopen, the marker and extra-table copy loops) is not under contract; its event-copy loop is (unit rebuild, a statement range); also proved is what the other loops rely on: every deletion marker is dumped once and re-encodes to exactly its key and time (so re-marking reproduces the tables), deleted ids likewise, index(event, offset) adds exactly keys_of(event) (so re-indexing reproduces an event\'s entries), and EventStore::store_event appends only the event bytes plus alignment padding',
                         'close-and-reopen is the persistence assumption of the trusted LMDB / mmap contracts'],
     },
     'C07': {
